@@ -126,6 +126,7 @@ def gen_projects(rng, quick):
     projects += size_projects(rng, quick, i + 10)
     for r in range(1 if quick else 6):
         projects += multi_projects(rng, i + 200 + 10 * r)
+    projects += extreme_projects(rng, quick, i + 400)
     return projects
 
 
@@ -168,6 +169,49 @@ def size_projects(rng, quick, i0):
                     proj["local"]["default"] = a
             G.oracle_expected(proj)
         out.append(proj)
+    return out
+
+
+def extreme_projects(rng, quick, i0):
+    """SIZE extremes of imported packages: (1) hundreds of source files with long names - the file
+    list `go list` prints is longer than 64 KiB (thorough: 1 MiB) - with targets in the file that
+    sorts first, in files that sort last, in a file with a very long name; (2) one file with a
+    thousand targets (thorough: 4000), a target with a very long name, a very long doc comment, a
+    package at the end of a deep import path.  Every target must be exposed."""
+    out = []
+    # (1) many files
+    proj = G.assemble(rng, "x%04d" % i0, "inside", [G.gen_spec(rng, 0, "group_lead", 1, "alias"), G.gen_spec(rng, 1, "single_above", 0, "root")], 2, nlocal=2)
+    pk = G.gen_package(rng, 0, shape="funcs", nfuncs=1)
+    pk["filler"] = {"count": 400, "namelen": 180} if quick else {"count": 4600, "namelen": 235}
+    names = rng.sample(G.FUNC_NAMES, 8)
+    pk["funcs"][0]["name"] = names[0]
+    pk["default"], pk["aliases"], pk["nested"] = None, {}, None
+    for nm, part in zip(names[1:5], ["aa_first", "zz_release", "zz_" + "y" * 170, "ff%05d_mid" % (pk["filler"]["count"] // 2)]):
+        pk["funcs"].append({"name": nm, "sig": rng.choice(G.SIGS), "file": part})
+    proj["packages"][0] = pk
+    proj["packages"][1]["nested"] = None
+    proj["extreme"] = "many-files"
+    out.append(G.rename_until_clash_free(rng, proj))
+    # (2) many targets, long names, long docs, deep path
+    proj = G.assemble(rng, "x%04d" % (i0 + 1), "parent", [G.gen_spec(rng, 0, "single_trail", 0, "root"), G.gen_spec(rng, 1, "group_trail", 2, "alias")], 2, nlocal=1)
+    n = 500 if quick else 4000
+    bulk = {"dir": "imp/p0", "pkg": "p0", "funcs": [{"name": "Bulk%04d" % k, "sig": "plain" if k % 3 else "err"} for k in range(n)],
+            "ns": [{"name": "Wide", "methods": [{"name": "M%03d" % k, "sig": "plain"} for k in range(50)]}], "default": "Bulk0001", "aliases": {"zzbulk": "Bulk0002"},
+            "unexported": [], "nontarget": False, "nested": None, "shape": "bulk"}
+    bulk["funcs"].append({"name": "L" + "ong" * 66, "sig": "ctx"})
+    bulk["funcs"].append({"name": "Documented", "sig": "plain", "longdoc": 120})
+    proj["packages"][0] = bulk
+    deep = G.gen_package(rng, 1, shape="both")
+    deep["dir"] = "imp/" + "/".join("d%02d" % k for k in range(12)) + "/p1"
+    deep["nested"] = None
+    proj["packages"][1] = deep
+    proj["local"]["funcs"][0]["name"] = "Zlocal"
+    proj["local"]["ns"] = []
+    if proj["local"].get("default"):
+        proj["local"]["default"] = "Zlocal"
+    proj["extreme"] = "many-targets"
+    G.oracle_expected(proj)
+    out.append(proj)
     return out
 
 
@@ -542,7 +586,7 @@ def run(ctx):
     combos = set()
     dist = {"specs": 0, "untagged": 0, "root": 0, "named": 0}
     by = {"placement": {}, "group_length": {}, "spelling": {}, "kind": {}, "position": {}, "layout": {}, "raw_path_literal": {}, "tagged_package_shape": {}, "environment_of_projects_with_platform_files": {},
-          "same_package_several_times": {}, "file_system_shape": {}, "size_local_targets": {}, "size_tagged_imports": {}, "size_targets_per_import": {}}
+          "same_package_several_times": {}, "file_system_shape": {}, "size_extremes": {}, "size_local_targets": {}, "size_tagged_imports": {}, "size_targets_per_import": {}}
     nerr = 0
     for proj, obs, ast in zip(projects, observations, asts):
         by["layout"][proj["layout"]] = by["layout"].get(proj["layout"], 0) + 1
@@ -554,6 +598,10 @@ def run(ctx):
                 by["file_system_shape"][c] = by["file_system_shape"].get(c, 0) + 1
         for nm, shp in (proj.get("mf_shapes") or {}).items():
             by["file_system_shape"]["magefile:" + shp] = by["file_system_shape"].get("magefile:" + shp, 0) + 1
+        if proj.get("extreme"):
+            by["size_extremes"][proj["extreme"]] = {"files_of_the_largest_package": max(len((obs.get("gofiles") or {}).get(p, [])) for p in obs["golist_mf"]) if obs["golist_mf"] else 0,
+                                                    "bytes_of_its_file_list": max(sum(len(x) + 2 for x in (obs.get("gofiles") or {}).get(p, [])) for p in obs["golist_mf"]) if obs["golist_mf"] else 0,
+                                                    "targets_listed": len(obs.get("names") or [])}
         if proj.get("multi"):
             by["same_package_several_times"][proj["multi"]] = by["same_package_several_times"].get(proj["multi"], 0) + 1
         if proj.get("size"):
